@@ -38,6 +38,7 @@ CONSTANTS NUp, NDown,     \* packets the application submits / the Crazyflie que
           NegAttempts,    \* 10 in the code
           MaxLoss,        \* budget of non-"A" main-loop outcomes ("A" is unlimited)
           MaxNegLoss,     \* budget of non-"A" start-up outcomes
+          MaxSlow,        \* budget of dongle exchanges that take longer than 1 s (USB stalls)
           MaxRestarts,    \* pause()/restart() cycles (MC bound)
           PeerModes,      \* subset of {"sl","nosl","deny"}
           DenyReplies,    \* set of byte sequences a "deny" peer may answer with
@@ -60,10 +61,12 @@ VARIABLES
     needsRes,                  \* link.needs_resending
     peer,                      \* P!PeerInit record
     nSub, nQ, lossLeft, negLossLeft,   \* environment budgets
+    usb,                       \* [stale: answers still lying in the per-link response queue of the dongle
+                               \*  multiplexer (always <<>> in the code as it is), slowLeft: budget of slow exchanges]
     h                          \* observable history (record of SafelinkProps)
 
 vars == <<retries, negAtt, pc, sp, nPause, negLeft, hasSL, hUp, hDown, frame, retryLeft, pend, outQ, inQ,
-          needsRes, peer, nSub, nQ, lossLeft, negLossLeft, h>>
+          needsRes, peer, nSub, nQ, lossLeft, negLossLeft, usb, h>>
 
 Outcomes == {"A", "U", "L"}
 NullFrame == <<255>>
@@ -87,6 +90,7 @@ InitWith(r, na, mode, tail, deny) ==
 Init == /\ \E mode \in PeerModes, tail \in AckTails, deny \in DenyReplies :
               InitWith(Retries, NegAttempts, mode, tail, deny)
         /\ lossLeft = MaxLoss /\ negLossLeft = MaxNegLoss
+        /\ usb = [stale |-> <<>>, slowLeft |-> MaxSlow]
 
 \* packet histories are those "short of a link failure": frozen at the first report
 Hist(s, p) == IF P!Frozen(h) THEN s ELSE P!AddPkt(s, p)
@@ -102,7 +106,8 @@ NegTx(o) ==
     /\ negLossLeft' = IF o = "A" THEN negLossLeft ELSE negLossLeft - 1
     /\ LET r == P!PeerRx(peer, P!NegFrame)
            rep == P!UsbReply(o, r.ack)
-           data == IF o = "A" THEN r.ack ELSE <<>>
+           q == Append(usb.stale, [ack |-> o = "A", data |-> IF o = "A" THEN r.ack ELSE <<>>])
+           data == Head(q).data        \* the answer the loop is handed (the oldest one queued)
            echo == IF Bug = "sl_on_any_3_bytes" THEN Len(data) = 3 ELSE data = P!NegFrame
            last == echo \/ negLeft = 1
        IN /\ peer' = IF o = "U" THEN peer ELSE r.p
@@ -118,37 +123,49 @@ NegTx(o) ==
                             !.conf = @ \/ (~h.closed /\ P!IsEchoReply(rep)),
                             !.cf = IF o # "U" /\ r.new THEN Hist(@, P!NegFrame) ELSE @,
                             !.nrFalse = @ \/ (last /\ ~needsRes')]
+          /\ usb' = [usb EXCEPT !.stale = Tail(q)]
     /\ UNCHANGED <<retries, negAtt, sp, nPause, frame, retryLeft, pend, outQ, inQ, nSub, nQ, lossLeft>>
 
 \* ---------------------------------------------------------------- main loop
 Wire == IF hasSL THEN <<P!WithBits(frame[1], hUp, hDown)>> \o Tail(frame) ELSE frame
 
-DataTx(o) ==
+\* slow: the exchange with the dongle takes longer than 1 s (each USB transfer may take up to 1 s).
+\* The code waits for the answer without a time limit, so this changes nothing -- unless
+\* Bug = "rsp_timeout": the loop gives up after 1 s (answer None = "resend"), the late answer stays in
+\* the response queue and every later exchange is handed the answer of the previous one.
+DataTx(o, slow) ==
     /\ pc = "tx"
+    /\ slow => usb.slowLeft > 0
     /\ o # "A" => lossLeft > 0
     /\ lossLeft' = IF o = "A" THEN lossLeft ELSE lossLeft - 1
     /\ LET w == Wire
            r == P!PeerRx(peer, w)
-           acked == o = "A"
-           data == IF acked THEN r.ack ELSE <<>>
+           timeout == slow /\ Bug = "rsp_timeout"
+           q == Append(usb.stale, [ack |-> o = "A", data |-> IF o = "A" THEN r.ack ELSE <<>>])
+           acked == Head(q).ack          \* what the loop is told
+           data == Head(q).data
            flipDown == hasSL /\ acked /\ Len(data) > 0 /\ P!Bit2(data[1]) = hDown
                        /\ Bug # "never_flip_down"
            flipUp == hasSL /\ (acked \/ Bug = "flip_up_on_lost")
            rl == IF acked THEN (IF Bug = "no_retry_reset" THEN retryLeft ELSE retries)
                  ELSE retryLeft - 1
            report == ~acked /\ (IF Bug = "retry_off_by_one" THEN rl = -1 ELSE rl = 0)
-           lk == LinkApp(h.link, IF acked THEN "A" ELSE "L")
+           lk == LinkApp(h.link, IF o = "A" THEN "A" ELSE "L")     \* what happened on the air
        IN /\ peer' = IF o = "U" THEN peer ELSE r.p
           /\ frame' = w                       \* _send_packet_safe rewrites dataOut[0] in place
-          /\ hDown' = IF flipDown THEN 1 - hDown ELSE hDown
-          /\ hUp' = IF flipUp THEN 1 - hUp ELSE hUp
-          /\ retryLeft' = rl
-          /\ pend' = data
-          /\ pc' = IF acked THEN (IF Len(data) > 0 THEN "put" ELSE "get")
-                   ELSE IF Bug = "dequeue_on_lost" THEN "get" ELSE Top
+          /\ usb' = [stale |-> IF timeout THEN q ELSE Tail(q),
+                     slowLeft |-> IF slow THEN usb.slowLeft - 1 ELSE usb.slowLeft]
+          /\ IF timeout                       \* ackStatus None: `continue`, nothing else happens
+             THEN UNCHANGED <<hDown, hUp, retryLeft, pend>> /\ pc' = Top
+             ELSE /\ hDown' = IF flipDown THEN 1 - hDown ELSE hDown
+                  /\ hUp' = IF flipUp THEN 1 - hUp ELSE hUp
+                  /\ retryLeft' = rl
+                  /\ pend' = data
+                  /\ pc' = IF acked THEN (IF Len(data) > 0 THEN "put" ELSE "get")
+                           ELSE IF Bug = "dequeue_on_lost" THEN "get" ELSE Top
           /\ h' = [h EXCEPT !.cf = IF o # "U" /\ r.new THEN Hist(@, w) ELSE @,
-                            !.link = IF report THEN Append(lk, "E") ELSE lk,
-                            !.failed = @ \/ report,
+                            !.link = IF report /\ ~timeout THEN Append(lk, "E") ELSE lk,
+                            !.failed = @ \/ (report /\ ~timeout),
                             !.slUsed = @ \/ (P!Bit3(w[1]) + P!Bit2(w[1]) # 2)]
     /\ UNCHANGED <<retries, negAtt, sp, nPause, negLeft, hasSL, outQ, inQ, needsRes, nSub, nQ, negLossLeft>>
 
@@ -156,15 +173,17 @@ InPut ==
     /\ pc = "put"
     /\ inQ' = IF P!IsNull(pend) THEN inQ ELSE Append(inQ, pend)   \* nulls abstracted away, see inQ
     /\ pc' = "get"
-    /\ UNCHANGED <<retries, negAtt, sp, nPause, negLeft, hasSL, hUp, hDown, frame, retryLeft, pend, outQ,
+    /\ UNCHANGED <<usb, retries, negAtt, sp, nPause, negLeft, hasSL, hUp, hDown, frame, retryLeft, pend, outQ,
                    needsRes, peer, nSub, nQ, lossLeft, negLossLeft, h>>
 
 OutGet ==
     /\ pc = "get"
     /\ IF outQ # <<>> THEN frame' = Head(outQ) /\ outQ' = <<>>
                       ELSE frame' = NullFrame /\ outQ' = outQ
-    /\ pc' = Top
-    /\ UNCHANGED <<retries, negAtt, sp, nPause, negLeft, hasSL, hUp, hDown, retryLeft, pend, inQ,
+    \* the iteration ends with RadioLinkStatistics.update(ackStatus, outPacket); Bug = "stats_crash":
+    \* it raises on a two-byte null packet with type byte 1 and the comm thread dies
+    /\ pc' = IF Bug = "stats_crash" /\ Len(pend) = 2 /\ P!IsNull(pend) /\ pend[2] = 1 THEN "dead" ELSE Top
+    /\ UNCHANGED <<usb, retries, negAtt, sp, nPause, negLeft, hasSL, hUp, hDown, retryLeft, pend, inQ,
                    needsRes, peer, nSub, nQ, lossLeft, negLossLeft, h>>
 
 \* ---------------------------------------------------------------- environment
@@ -173,21 +192,21 @@ AppSubmit(pk) ==
     /\ outQ' = <<pk>>
     /\ nSub' = nSub + 1
     /\ h' = [h EXCEPT !.acc = Hist(@, pk)]
-    /\ UNCHANGED <<retries, negAtt, pc, sp, nPause, negLeft, hasSL, hUp, hDown, frame, retryLeft, pend, inQ,
+    /\ UNCHANGED <<usb, retries, negAtt, pc, sp, nPause, negLeft, hasSL, hUp, hDown, frame, retryLeft, pend, inQ,
                    needsRes, peer, nQ, lossLeft, negLossLeft>>
 
 AppRecv ==
     /\ inQ # <<>>
     /\ inQ' = Tail(inQ)
     /\ h' = [h EXCEPT !.got = Hist(@, Head(inQ))]
-    /\ UNCHANGED <<retries, negAtt, pc, sp, nPause, negLeft, hasSL, hUp, hDown, frame, retryLeft, pend, outQ,
+    /\ UNCHANGED <<usb, retries, negAtt, pc, sp, nPause, negLeft, hasSL, hUp, hDown, frame, retryLeft, pend, outQ,
                    needsRes, peer, nSub, nQ, lossLeft, negLossLeft>>
 
 CfQueue(pk) ==
     /\ peer' = P!PeerQueue(peer, pk)
     /\ nQ' = nQ + 1
     /\ h' = [h EXCEPT !.cfq = Hist(@, pk)]
-    /\ UNCHANGED <<retries, negAtt, pc, sp, nPause, negLeft, hasSL, hUp, hDown, frame, retryLeft, pend, outQ,
+    /\ UNCHANGED <<usb, retries, negAtt, pc, sp, nPause, negLeft, hasSL, hUp, hDown, frame, retryLeft, pend, outQ,
                    inQ, needsRes, nSub, lossLeft, negLossLeft>>
 
 \* ---------------------------------------------------------------- pause() / restart()
@@ -195,7 +214,7 @@ PauseReq ==
     /\ pc # "paused" /\ ~sp
     /\ sp' = TRUE /\ nPause' = nPause + 1
     /\ h' = [h EXCEPT !.closed = TRUE]
-    /\ UNCHANGED <<retries, negAtt, pc, negLeft, hasSL, hUp, hDown, frame, retryLeft, pend, outQ, inQ,
+    /\ UNCHANGED <<usb, retries, negAtt, pc, negLeft, hasSL, hUp, hDown, frame, retryLeft, pend, outQ, inQ,
                    needsRes, peer, nSub, nQ, lossLeft, negLossLeft>>
 
 Restart ==
@@ -203,15 +222,15 @@ Restart ==
     /\ pc' = "neg" /\ sp' = FALSE /\ negLeft' = negAtt /\ hasSL' = FALSE /\ hUp' = 0 /\ hDown' = 1
     /\ frame' = NullFrame /\ retryLeft' = retries
     /\ h' = P!SessionReset(h)
-    /\ UNCHANGED <<retries, negAtt, nPause, pend, outQ, inQ, needsRes, peer, nSub, nQ, lossLeft, negLossLeft>>
+    /\ UNCHANGED <<usb, retries, negAtt, nPause, pend, outQ, inQ, needsRes, peer, nSub, nQ, lossLeft, negLossLeft>>
 
 Reboot(mode) ==
     /\ pc = "paused"
     /\ peer' = P!PeerInit(mode, peer.tail, peer.deny)
-    /\ UNCHANGED <<retries, negAtt, pc, sp, nPause, negLeft, hasSL, hUp, hDown, frame, retryLeft, pend,
+    /\ UNCHANGED <<usb, retries, negAtt, pc, sp, nPause, negLeft, hasSL, hUp, hDown, frame, retryLeft, pend,
                    outQ, inQ, needsRes, nSub, nQ, lossLeft, negLossLeft, h>>
 
-Radio == (\E o \in Outcomes : NegTx(o) \/ DataTx(o)) \/ InPut \/ OutGet
+Radio == (\E o \in Outcomes : NegTx(o) \/ DataTx(o, FALSE) \/ DataTx(o, TRUE)) \/ InPut \/ OutGet
 Submit == nSub < NUp /\ AppSubmit(UpPk(nSub + 1))
 Queue == nQ < NDown /\ CfQueue(DnPk(nQ + 1))
 Pause == nPause < MaxRestarts /\ PauseReq
@@ -235,7 +254,7 @@ SafelinkIffEcho == hasSL => h.echo
 \* thread has safelink
 NeedsResendingIsNotSafelink == pc # "neg" => (needsRes = ~hasSL)
 Lockstep == hasSL => hUp = hDown
-TypeOK == /\ pc \in {"neg", "tx", "put", "get", "paused"} /\ Len(outQ) <= 1
+TypeOK == /\ pc \in {"neg", "tx", "put", "get", "paused", "dead"} /\ Len(outQ) <= 1
           /\ hUp \in 0..1 /\ hDown \in 0..1 /\ negLeft \in 0..negAtt
 \* state constraint for configurations in which a raw-mode host can meet a peer that has safelink
 \* switched on (all start-up acks lost): that peer repeats its last payload for ever and the host
